@@ -30,6 +30,7 @@ struct vmutex { int owner = -1; void lock(); void unlock(); bool try_lock(); };
 struct vcondvar {
     void wait_raw(std::unique_lock<vmutex>& l);
     template <class P> void wait(std::unique_lock<vmutex>& l, P p) { while (!p()) wait_raw(l); }
+    void wait(std::unique_lock<vmutex>& l) { wait_raw(l); }      // the form without a predicate (one sleep, no re-check)
     void notify_all(); void notify_one() { notify_all(); }
 };
 struct vthread {
